@@ -3,7 +3,7 @@
 import glob, json, os, re
 rows = []
 n = det = 0
-for d in sorted(glob.glob('/verif/seeded/*')):
+for d in sorted(glob.glob('/verif/seeded/C*')):
     m = json.load(open(d + '/meta.json'))
     mech = m['check_result'].get('mechanisms') or {}
     keys = ', '.join('`%s`' % k for k in sorted(mech, key=lambda k: -mech[k])[:2]) or '(see meta.json)'
